@@ -183,6 +183,22 @@ def run_input(ctx, i):
                     o.regularization = aa.reg.Constant(coefficient=0.7)
                     d["regularized"] = True
                     break
+        if not only_functions and i % 6 == 2:
+            # a fixed, always-present mix: a plain function list FOLLOWED by one of the same size that supplies its own operated matrix
+            # (the order and the sizes matter for everything that pairs lists by position)
+            Func = gen_aa.func_list_class(aa)
+            n_ = int((~case["m"]).sum())
+            pfun = int(rng.integers(1, 3))
+            Ma, _ = gen.mapping_matrix(rng, n_, pfun, kind="fractional")
+            Mb, _ = gen.mapping_matrix(rng, n_, pfun, kind="signed")
+            Ma[0, :] += 1.0
+            Mb[0, :] += 1.0
+            ovb = np.asarray(case["ds"].convolver.convolve_mapping_matrix(mapping_matrix=Mb.copy()), float) + 0.3 * rng.normal(size=Mb.shape)
+            extra = [Func(grid=case["ds"].grids.uniform, M=Ma, regularization=aa.reg.Zeroth(coefficient=0.8)),
+                     Func(grid=case["ds"].grids.uniform, M=Mb, regularization=aa.reg.Zeroth(coefficient=1.1), override=ovb)]
+            objs = extra + objs
+            desc = [{"kind": "func", "matrix": "fractional", "params": pfun, "regularized": True, "operated_override": False},
+                    {"kind": "func", "matrix": "signed", "params": pfun, "regularized": True, "operated_override": "with_light_from_outside_the_mask"}] + desc
         return objs, desc
 
     import copy as _copy
